@@ -47,6 +47,9 @@ struct Case {
     /// 1 removed, 2 a dangling symbolic link, 3 a directory of that name. The run may fail (C10's business) but must not
     /// fall back to a competitor whose file happens to be there.
     tip_file: u8,
+    /// another process holds the index's LOCK file (a running node): the run may refuse to start, but whatever it delivers
+    /// must be the active chain of the index as it is on disk (table files AND write-ahead log)
+    lock_held: bool,
 }
 
 const TIP: u64 = 4;
@@ -126,9 +129,9 @@ pub fn run() -> Report {
     for s in &sets {
         for &form in &forms {
             for cb in &cbs {
-                cases.push(Case { end: None, hash_seed: 1, same_file: false, extras: s.clone(), form, cb, tip_file: 0 });
+                cases.push(Case { end: None, hash_seed: 1, same_file: false, extras: s.clone(), form, cb, tip_file: 0, lock_held: false });
                 if form == 0 {
-                    cases.push(Case { end: None, hash_seed: 1, same_file: true, extras: s.clone(), form, cb, tip_file: 0 });
+                    cases.push(Case { end: None, hash_seed: 1, same_file: true, extras: s.clone(), form, cb, tip_file: 0, lock_held: false });
                 }
             }
         }
@@ -139,7 +142,7 @@ pub fn run() -> Report {
                 for end in [h, h + 1] {
                     if end >= 1 && end <= TIP {
                         for hash_seed in [1u8, 2, 6, 9, 17, 18, 19, 28, 47, 48] {
-                            cases.push(Case { end: Some(end), hash_seed, same_file: false, extras: s.clone(), form: 0, cb: "csvdump", tip_file: 0 });
+                            cases.push(Case { end: Some(end), hash_seed, same_file: false, extras: s.clone(), form: 0, cb: "csvdump", tip_file: 0, lock_held: false });
                         }
                     }
                 }
@@ -149,11 +152,19 @@ pub fn run() -> Report {
     for x in &singles {
         for tip_file in 1..=3u8 {
             for cb in &cbs {
-                cases.push(Case { end: None, hash_seed: 1, same_file: false, extras: vec![*x], form: 0, cb, tip_file });
+                cases.push(Case { end: None, hash_seed: 1, same_file: false, extras: vec![*x], form: 0, cb, tip_file, lock_held: false });
             }
         }
     }
-    rep.rule = "active chain of 5 blocks plus every set of <= 2 (thorough: <= 3) extra index records drawn from {header-only (VALID_TREE) at/below/beyond the tip, never-connected stale sibling with data, failed block with data, FAILED_CHILD header, once-active reorged-out 2-block branch, invalidated (FAILED_VALID/FAILED_CHILD, formerly fully validated) 3-block branch reaching above the tip, never-connected blocks with data above the tip, never-connected records whose key shares the first 8 / last 8 / all but one byte with the active block's hash or begins with 8 zero bytes}, each competitor at an occupied height in both LevelDB key orders (nonce ground); competitor data stored in a file of its own or inside the active chain's file right after its parent; index histories {log only, header-only-then-upgraded across a compaction, table only}; --end at and just above each competitor's height under 10 HashMap iteration orders (seeds of the deterministic getrandom stream); csvdump and unspentcsvdump; non-trivial = distinct case with >= 1 extra record".into();
+    for x in &singles {
+        for form in [0u8, 1, 3] {
+            cases.push(Case { end: None, hash_seed: 1, same_file: false, extras: vec![*x], form, cb: "csvdump", tip_file: 0, lock_held: true });
+        }
+        for cb in &cbs {
+            cases.push(Case { end: None, hash_seed: 1, same_file: false, extras: vec![*x], form: 3, cb, tip_file: 0, lock_held: false });
+        }
+    }
+    rep.rule = "active chain of 5 blocks plus every set of <= 2 (thorough: <= 3) extra index records drawn from {header-only (VALID_TREE) at/below/beyond the tip, never-connected stale sibling with data, failed block with data, FAILED_CHILD header, once-active reorged-out 2-block branch, invalidated (FAILED_VALID/FAILED_CHILD, formerly fully validated) 3-block branch reaching above the tip, never-connected blocks with data above the tip, never-connected records whose key shares the first 8 / last 8 / all but one byte with the active block's hash or begins with 8 zero bytes}, each competitor at an occupied height in both LevelDB key orders (nonce ground); competitor data stored in a file of its own or inside the active chain's file right after its parent; index histories {log only, header-only-then-upgraded across a compaction, table only, pre-reorganisation chain in the table files with today's chain in the write-ahead log}; the index's LOCK file held by another process; --end at and just above each competitor's height under 10 HashMap iteration orders (seeds of the deterministic getrandom stream); csvdump and unspentcsvdump; non-trivial = distinct case with >= 1 extra record".into();
     rep.bound = json!({"active_chain": 5, "extras_per_index": if thorough { "<=3" } else { "<=2" }, "singles": singles.len(), "sets": sets.len(), "cases": cases.len()});
     rep.not_covered = vec!["two fully validated competing tips of equal height (not decidable from the index alone)".into(), "adversarial header bytes in header-only records".into()];
     let root = refmodel::world::scratch_root();
@@ -261,6 +272,23 @@ pub fn run() -> Report {
                         }
                     }
                 }
+                3 => {
+                    // the index as a node leaves it after a reorganisation: the table files hold the chain as it was when they were
+                    // written (active blocks below the fork plus the competitors), the write-ahead log holds the rest of today's chain
+                    let fork = c.extras.iter().map(|x| x.height).min().unwrap_or(2);
+                    let n_active = chain.blocks.len();
+                    for (i, (r, _)) in recs.iter().enumerate() {
+                        if i >= n_active || r.height < fork {
+                            world.put_rec(r);
+                        }
+                    }
+                    world.index_ops.push(IndexOp::Compact);
+                    for (i, (r, _)) in recs.iter().enumerate() {
+                        if i < n_active && r.height >= fork {
+                            world.put_rec(r);
+                        }
+                    }
+                }
                 _ => {
                     for (r, _) in &recs {
                         world.put_rec(r);
@@ -296,7 +324,24 @@ pub fn run() -> Report {
                 }
                 acc.count("blk-file-of-the-active-tip-unusable", 1);
             }
+            let lock_fd = if c.lock_held {
+                use std::os::unix::io::AsRawFd;
+                let f = std::fs::OpenOptions::new().create(true).write(true).open(wk.data().join("index").join("LOCK"));
+                match f {
+                    Ok(f) => {
+                        if unsafe { libc::flock(f.as_raw_fd(), libc::LOCK_EX | libc::LOCK_NB) } != 0 {
+                            return acc.machinery("cannot lock the index LOCK file".into());
+                        }
+                        acc.count("index-lock-held-by-another-process", 1);
+                        Some(f)
+                    }
+                    Err(e) => return acc.machinery(format!("open LOCK: {}", e)),
+                }
+            } else {
+                None
+            };
             let r = wk.run(&spec);
+            drop(lock_fd);
             acc.states += 1;
             acc.transitions += 1;
             if !c.extras.is_empty() {
@@ -316,7 +361,7 @@ pub fn run() -> Report {
                 bad.push(("wrong-tip".into(), format!("processed up to height {} but the range ends at {}", e, want_end)));
             }
             let range = in_range(&all, s, e);
-            if c.tip_file != 0 && !r.ok() {
+            if (c.tip_file != 0 || c.lock_held) && !r.ok() {
                 // the run failed because a block of the active chain cannot be read: how it fails is C10's business;
                 // what must not happen is judged below (a competitor's transactions in anything it wrote)
                 bad.clear();
